@@ -5,8 +5,9 @@
   * `table_wf`   : every row outside `wfExceptions ++ wfNested` returns only `WFok` success replies
                    (syntactically, for all primitive results).
   * `table_wf3`  : every row outside `wfExceptions` returns only `WFok3` success replies.
-  * `table_known`: every row, no exception, returns only `WFok3` replies or one of the two named malformed
-                   shapes (`SimpleDirty`, `Star0`), relative to the primitives' postconditions.
+  * `table_known`: every row, no exception, returns only `WFok3` replies or the one named malformed shape
+                   `SimpleDirty`, relative to the primitives' postconditions. (The second shape of earlier
+                   versions, the unterminated empty array `*0` of the set listings, was repaired upstream.)
   * `table_known_run`, `table_wf_run`, `table_wf2_run`, `progOf_*` : the same for actual runs.
 -/
 import SugarModel.Lemmas.WFGeneric
@@ -19,7 +20,7 @@ namespace Sugar
 
 /-- command words whose handler can return a malformed success reply (or, for MGET, whose well-formedness
     needs the `GetValues` length postcondition) -/
-def wfExceptions : List Bytes := [b "set", b "get", b "mget", b "getdel", b "getex", b "sdiff", b "sinter", b "smembers", b "spop", b "srandmember", b "sunion"]
+def wfExceptions : List Bytes := [b "set", b "get", b "mget", b "getdel", b "getex"]
 
 /-- command words whose member-listing reply is an array of arrays: well-formed at depth 3, not at depth 2 -/
 def wfNested : List Bytes := [b "zdiff", b "zinter", b "zmpop", b "zpopmax", b "zpopmin", b "zrandmember", b "zrange", b "zunion"]
@@ -88,20 +89,20 @@ theorem table_wf : ∀ e ∈ handlerTable, e.1 ∉ wfExceptions ++ wfNested → 
     fun _ c cmd => handleHDel_wf c cmd,
     fun _ c cmd => handleSAdd_wf c cmd,
     fun _ c cmd => handleSCard_wf c cmd,
-    fun h => (h (by decide)).elim,
-    fun _ c cmd => handleSDiffStore_wf c cmd,
-    fun h => (h (by decide)).elim,
-    fun _ c cmd => handleSInter_wf _ rfl c cmd,
-    fun _ c cmd => handleSInter_wf _ rfl c cmd,
+    fun _ c cmd => handleSDiff_wf _ c cmd,
+    fun _ c cmd => handleSDiff_wf _ c cmd,
+    fun _ c cmd => handleSInter_wf _ c cmd,
+    fun _ c cmd => handleSInter_wf _ c cmd,
+    fun _ c cmd => handleSInter_wf _ c cmd,
     fun _ c cmd => handleSIsMember_wf c cmd,
-    fun h => (h (by decide)).elim,
+    fun _ c cmd => handleSMembers_wf c cmd,
     fun _ c cmd => handleSMIsMember_wf c cmd,
     fun _ c cmd => handleSMove_wf c cmd,
-    fun h => (h (by decide)).elim,
-    fun h => (h (by decide)).elim,
+    fun _ c cmd => handleSPop_wf c cmd,
+    fun _ c cmd => handleSRandMember_wf c cmd,
     fun _ c cmd => handleSRem_wf c cmd,
-    fun h => (h (by decide)).elim,
-    fun _ c cmd => handleSUnionStore_wf c cmd,
+    fun _ c cmd => handleSUnion_wf _ c cmd,
+    fun _ c cmd => handleSUnion_wf _ c cmd,
     fun _ c cmd => handleSelect_wf c cmd,
     fun _ c cmd => handleSwapDB_wf c cmd,
     fun _ c cmd => handlePing_wf c cmd,
@@ -196,20 +197,20 @@ theorem table_wf3 : ∀ e ∈ handlerTable, e.1 ∉ wfExceptions → ∀ (c : Ct
     fun _ c cmd => allRet_to3 (handleHDel_wf c cmd),
     fun _ c cmd => allRet_to3 (handleSAdd_wf c cmd),
     fun _ c cmd => allRet_to3 (handleSCard_wf c cmd),
-    fun h => (h (by decide)).elim,
-    fun _ c cmd => allRet_to3 (handleSDiffStore_wf c cmd),
-    fun h => (h (by decide)).elim,
-    fun _ c cmd => allRet_to3 (handleSInter_wf _ rfl c cmd),
-    fun _ c cmd => allRet_to3 (handleSInter_wf _ rfl c cmd),
+    fun _ c cmd => allRet_to3 (handleSDiff_wf _ c cmd),
+    fun _ c cmd => allRet_to3 (handleSDiff_wf _ c cmd),
+    fun _ c cmd => allRet_to3 (handleSInter_wf _ c cmd),
+    fun _ c cmd => allRet_to3 (handleSInter_wf _ c cmd),
+    fun _ c cmd => allRet_to3 (handleSInter_wf _ c cmd),
     fun _ c cmd => allRet_to3 (handleSIsMember_wf c cmd),
-    fun h => (h (by decide)).elim,
+    fun _ c cmd => allRet_to3 (handleSMembers_wf c cmd),
     fun _ c cmd => allRet_to3 (handleSMIsMember_wf c cmd),
     fun _ c cmd => allRet_to3 (handleSMove_wf c cmd),
-    fun h => (h (by decide)).elim,
-    fun h => (h (by decide)).elim,
+    fun _ c cmd => allRet_to3 (handleSPop_wf c cmd),
+    fun _ c cmd => allRet_to3 (handleSRandMember_wf c cmd),
     fun _ c cmd => allRet_to3 (handleSRem_wf c cmd),
-    fun h => (h (by decide)).elim,
-    fun _ c cmd => allRet_to3 (handleSUnionStore_wf c cmd),
+    fun _ c cmd => allRet_to3 (handleSUnion_wf _ c cmd),
+    fun _ c cmd => allRet_to3 (handleSUnion_wf _ c cmd),
     fun _ c cmd => allRet_to3 (handleSelect_wf c cmd),
     fun _ c cmd => allRet_to3 (handleSwapDB_wf c cmd),
     fun _ c cmd => allRet_to3 (handlePing_wf c cmd),
@@ -240,8 +241,8 @@ theorem table_wf3 : ∀ e ∈ handlerTable, e.1 ∉ wfExceptions → ∀ (c : Ct
     fun _ c cmd => handleZCombine_wf3 _ _ c cmd,
     fun _ c cmd => allRet_to3 (handleZCombineStore_wf _ c cmd)⟩
 
-/-- the two malformed reply shapes the modelled handlers can emit -/
-def KnownBad (r : Res) : Prop := SimpleDirty r ∨ Star0 r
+/-- the one malformed reply shape the modelled handlers can emit: stored text echoed as a simple string -/
+def KnownBad (r : Res) : Prop := SimpleDirty r
 
 theorem allRetP_mono {α : Type} {P Q : α → Prop} (h : ∀ a, P a → Q a) :
     ∀ p : Prog α, p.AllRetP P → p.AllRetP Q := by
@@ -253,16 +254,14 @@ theorem allRetP_mono {α : Type} {P Q : α → Prop} (h : ∀ a, P a → Q a) :
   | unmod w => intro _; trivial
 
 /-- every row of the handler table: a success reply is well-formed, or a simple string echoing stored bytes
-    with CR/LF inside, or the bare `*0` -/
+    with CR/LF inside -/
 theorem table_known : ∀ e ∈ handlerTable, ∀ (c : Ctx) (cmd : List Bytes), (e.2 c cmd).AllRetP (Res.WFx3 KnownBad) := by
   have full : ∀ {p : Prog Res}, p.AllRet Res.WFok → p.AllRetP (Res.WFx3 KnownBad) :=
     fun h => (allRet_mono (fun _ hr => Or.inl hr.to3) _ h).toP
   have nested : ∀ {p : Prog Res}, p.AllRet Res.WFok3 → p.AllRetP (Res.WFx3 KnownBad) :=
     fun h => (allRet_mono (fun _ hr => Or.inl hr) _ h).toP
   have dirty : ∀ {p : Prog Res}, p.AllRet (Res.WFx SimpleDirty) → p.AllRetP (Res.WFx3 KnownBad) :=
-    fun h => (allRet_mono (fun _ hr => hr.elim (fun w => Or.inl w.to3) (fun e => Or.inr (Or.inl e))) _ h).toP
-  have star : ∀ {p : Prog Res}, p.AllRet (Res.WFx Star0) → p.AllRetP (Res.WFx3 KnownBad) :=
-    fun h => (allRet_mono (fun _ hr => hr.elim (fun w => Or.inl w.to3) (fun e => Or.inr (Or.inr e))) _ h).toP
+    fun h => (allRet_mono (fun _ hr => hr.elim (fun w => Or.inl w.to3) (fun e => Or.inr e)) _ h).toP
   unfold handlerTable
   simp only [List.forall_mem_cons, List.not_mem_nil, false_imp_iff, implies_true, and_true]
   exact ⟨fun c cmd => dirty (handleSet_wf_partial c cmd),
@@ -324,20 +323,20 @@ theorem table_known : ∀ e ∈ handlerTable, ∀ (c : Ctx) (cmd : List Bytes), 
     fun c cmd => full (handleHDel_wf c cmd),
     fun c cmd => full (handleSAdd_wf c cmd),
     fun c cmd => full (handleSCard_wf c cmd),
-    fun c cmd => star (handleSDiff_wf_partial _ c cmd),
-    fun c cmd => full (handleSDiffStore_wf c cmd),
-    fun c cmd => star (handleSInter_wf_partial _ c cmd),
-    fun c cmd => full (handleSInter_wf _ rfl c cmd),
-    fun c cmd => full (handleSInter_wf _ rfl c cmd),
+    fun c cmd => full (handleSDiff_wf _ c cmd),
+    fun c cmd => full (handleSDiff_wf _ c cmd),
+    fun c cmd => full (handleSInter_wf _ c cmd),
+    fun c cmd => full (handleSInter_wf _ c cmd),
+    fun c cmd => full (handleSInter_wf _ c cmd),
     fun c cmd => full (handleSIsMember_wf c cmd),
-    fun c cmd => star (handleSMembers_wf_partial c cmd),
+    fun c cmd => full (handleSMembers_wf c cmd),
     fun c cmd => full (handleSMIsMember_wf c cmd),
     fun c cmd => full (handleSMove_wf c cmd),
-    fun c cmd => star (handleSPop_wf_partial c cmd),
-    fun c cmd => star (handleSRandMember_wf_partial c cmd),
+    fun c cmd => full (handleSPop_wf c cmd),
+    fun c cmd => full (handleSRandMember_wf c cmd),
     fun c cmd => full (handleSRem_wf c cmd),
-    fun c cmd => star (handleSUnion_wf_partial _ c cmd),
-    fun c cmd => full (handleSUnionStore_wf c cmd),
+    fun c cmd => full (handleSUnion_wf _ c cmd),
+    fun c cmd => full (handleSUnion_wf _ c cmd),
     fun c cmd => full (handleSelect_wf c cmd),
     fun c cmd => full (handleSwapDB_wf c cmd),
     fun c cmd => full (handlePing_wf c cmd),
@@ -368,16 +367,16 @@ theorem table_known : ∀ e ∈ handlerTable, ∀ (c : Ctx) (cmd : List Bytes), 
     fun c cmd => nested (handleZCombine_wf3 _ _ c cmd),
     fun c cmd => full (handleZCombineStore_wf _ c cmd)⟩
 
-/-- run-level form: whatever the state, a handler that completes answers a well-formed reply or one of the
-    two known malformed shapes -/
+/-- run-level form: whatever the state, a handler that completes answers a well-formed reply or the
+    known malformed shape -/
 theorem table_known_run : ∀ e ∈ handlerTable, ∀ (c : Ctx) (cmd : List Bytes) (s : State) (r : Res),
-    ((e.2 c cmd).run c s).2 = .done r → Res.WFok3 r ∨ SimpleDirty r ∨ Star0 r :=
+    ((e.2 c cmd).run c s).2 = .done r → Res.WFok3 r ∨ SimpleDirty r :=
   fun e he c cmd s r h => allRetP_run _ c _ s (table_known e he c cmd) r h
 
 /-- command words whose handler really can answer a malformed success reply (witnesses in `Lemmas.WFWitness`) -/
-def wfMalformed : List Bytes := [b "set", b "get", b "getdel", b "getex", b "sdiff", b "sinter", b "smembers", b "spop", b "srandmember", b "sunion"]
+def wfMalformed : List Bytes := [b "set", b "get", b "getdel", b "getex"]
 
-/-- run-level table theorem: outside the ten words of `wfMalformed` (so including MGET), whatever the state,
+/-- run-level table theorem: outside the four words of `wfMalformed` (so including MGET), whatever the state,
     a handler that completes answers exactly one well-formed RESP value -/
 theorem table_wf_run : ∀ e ∈ handlerTable, e.1 ∉ wfMalformed → ∀ (c : Ctx) (cmd : List Bytes) (s : State) (r : Res),
     ((e.2 c cmd).run c s).2 = .done r → Res.WFok3 r := by
@@ -442,20 +441,20 @@ theorem table_wf_run : ∀ e ∈ handlerTable, e.1 ∉ wfMalformed → ∀ (c : 
     fun _ c cmd s r h => allRet_run _ c _ s (allRet_to3 (handleHDel_wf c cmd)) r h,
     fun _ c cmd s r h => allRet_run _ c _ s (allRet_to3 (handleSAdd_wf c cmd)) r h,
     fun _ c cmd s r h => allRet_run _ c _ s (allRet_to3 (handleSCard_wf c cmd)) r h,
-    fun h => (h (by decide)).elim,
-    fun _ c cmd s r h => allRet_run _ c _ s (allRet_to3 (handleSDiffStore_wf c cmd)) r h,
-    fun h => (h (by decide)).elim,
-    fun _ c cmd s r h => allRet_run _ c _ s (allRet_to3 (handleSInter_wf _ rfl c cmd)) r h,
-    fun _ c cmd s r h => allRet_run _ c _ s (allRet_to3 (handleSInter_wf _ rfl c cmd)) r h,
+    fun _ c cmd s r h => allRet_run _ c _ s (allRet_to3 (handleSDiff_wf _ c cmd)) r h,
+    fun _ c cmd s r h => allRet_run _ c _ s (allRet_to3 (handleSDiff_wf _ c cmd)) r h,
+    fun _ c cmd s r h => allRet_run _ c _ s (allRet_to3 (handleSInter_wf _ c cmd)) r h,
+    fun _ c cmd s r h => allRet_run _ c _ s (allRet_to3 (handleSInter_wf _ c cmd)) r h,
+    fun _ c cmd s r h => allRet_run _ c _ s (allRet_to3 (handleSInter_wf _ c cmd)) r h,
     fun _ c cmd s r h => allRet_run _ c _ s (allRet_to3 (handleSIsMember_wf c cmd)) r h,
-    fun h => (h (by decide)).elim,
+    fun _ c cmd s r h => allRet_run _ c _ s (allRet_to3 (handleSMembers_wf c cmd)) r h,
     fun _ c cmd s r h => allRet_run _ c _ s (allRet_to3 (handleSMIsMember_wf c cmd)) r h,
     fun _ c cmd s r h => allRet_run _ c _ s (allRet_to3 (handleSMove_wf c cmd)) r h,
-    fun h => (h (by decide)).elim,
-    fun h => (h (by decide)).elim,
+    fun _ c cmd s r h => allRet_run _ c _ s (allRet_to3 (handleSPop_wf c cmd)) r h,
+    fun _ c cmd s r h => allRet_run _ c _ s (allRet_to3 (handleSRandMember_wf c cmd)) r h,
     fun _ c cmd s r h => allRet_run _ c _ s (allRet_to3 (handleSRem_wf c cmd)) r h,
-    fun h => (h (by decide)).elim,
-    fun _ c cmd s r h => allRet_run _ c _ s (allRet_to3 (handleSUnionStore_wf c cmd)) r h,
+    fun _ c cmd s r h => allRet_run _ c _ s (allRet_to3 (handleSUnion_wf _ c cmd)) r h,
+    fun _ c cmd s r h => allRet_run _ c _ s (allRet_to3 (handleSUnion_wf _ c cmd)) r h,
     fun _ c cmd s r h => allRet_run _ c _ s (allRet_to3 (handleSelect_wf c cmd)) r h,
     fun _ c cmd s r h => allRet_run _ c _ s (allRet_to3 (handleSwapDB_wf c cmd)) r h,
     fun _ c cmd s r h => allRet_run _ c _ s (allRet_to3 (handlePing_wf c cmd)) r h,
@@ -550,20 +549,20 @@ theorem table_wf2_run : ∀ e ∈ handlerTable, e.1 ∉ wfMalformed ++ wfNested 
     fun _ c cmd s r h => allRet_run _ c _ s (handleHDel_wf c cmd) r h,
     fun _ c cmd s r h => allRet_run _ c _ s (handleSAdd_wf c cmd) r h,
     fun _ c cmd s r h => allRet_run _ c _ s (handleSCard_wf c cmd) r h,
-    fun h => (h (by decide)).elim,
-    fun _ c cmd s r h => allRet_run _ c _ s (handleSDiffStore_wf c cmd) r h,
-    fun h => (h (by decide)).elim,
-    fun _ c cmd s r h => allRet_run _ c _ s (handleSInter_wf _ rfl c cmd) r h,
-    fun _ c cmd s r h => allRet_run _ c _ s (handleSInter_wf _ rfl c cmd) r h,
+    fun _ c cmd s r h => allRet_run _ c _ s (handleSDiff_wf _ c cmd) r h,
+    fun _ c cmd s r h => allRet_run _ c _ s (handleSDiff_wf _ c cmd) r h,
+    fun _ c cmd s r h => allRet_run _ c _ s (handleSInter_wf _ c cmd) r h,
+    fun _ c cmd s r h => allRet_run _ c _ s (handleSInter_wf _ c cmd) r h,
+    fun _ c cmd s r h => allRet_run _ c _ s (handleSInter_wf _ c cmd) r h,
     fun _ c cmd s r h => allRet_run _ c _ s (handleSIsMember_wf c cmd) r h,
-    fun h => (h (by decide)).elim,
+    fun _ c cmd s r h => allRet_run _ c _ s (handleSMembers_wf c cmd) r h,
     fun _ c cmd s r h => allRet_run _ c _ s (handleSMIsMember_wf c cmd) r h,
     fun _ c cmd s r h => allRet_run _ c _ s (handleSMove_wf c cmd) r h,
-    fun h => (h (by decide)).elim,
-    fun h => (h (by decide)).elim,
+    fun _ c cmd s r h => allRet_run _ c _ s (handleSPop_wf c cmd) r h,
+    fun _ c cmd s r h => allRet_run _ c _ s (handleSRandMember_wf c cmd) r h,
     fun _ c cmd s r h => allRet_run _ c _ s (handleSRem_wf c cmd) r h,
-    fun h => (h (by decide)).elim,
-    fun _ c cmd s r h => allRet_run _ c _ s (handleSUnionStore_wf c cmd) r h,
+    fun _ c cmd s r h => allRet_run _ c _ s (handleSUnion_wf _ c cmd) r h,
+    fun _ c cmd s r h => allRet_run _ c _ s (handleSUnion_wf _ c cmd) r h,
     fun _ c cmd s r h => allRet_run _ c _ s (handleSelect_wf c cmd) r h,
     fun _ c cmd s r h => allRet_run _ c _ s (handleSwapDB_wf c cmd) r h,
     fun _ c cmd s r h => allRet_run _ c _ s (handlePing_wf c cmd) r h,
@@ -596,7 +595,7 @@ theorem table_wf2_run : ∀ e ∈ handlerTable, e.1 ∉ wfMalformed ++ wfNested 
 
 /-- the same through the dispatcher -/
 theorem progOf_known_run (c : Ctx) (cmd : List Bytes) (p : Prog Res) (hp : progOf c cmd = some p)
-    (s : State) (r : Res) (h : (p.run c s).2 = .done r) : Res.WFok3 r ∨ SimpleDirty r ∨ Star0 r := by
+    (s : State) (r : Res) (h : (p.run c s).2 = .done r) : Res.WFok3 r ∨ SimpleDirty r := by
   unfold progOf at hp
   split at hp
   · simp at hp
